@@ -36,6 +36,15 @@ struct Runner {
 }
 
 impl Runner {
+    fn config_for(&self, cfg: &Cfg) -> (Config, String) {
+        let (mut config, prefix) = self.config();
+        if cfg.xb > 0 {
+            config.defaults.request_response.client_expired_connection_buffer = cfg.xb as usize;
+            config.defaults.request_response.server_expired_connection_buffer = cfg.xb as usize;
+        }
+        (config, prefix)
+    }
+
     fn config(&self) -> (Config, String) {
         let mut config = Config::default();
         let root = format!("{}/iox", self.work);
@@ -50,7 +59,7 @@ impl Runner {
         let c = &w.cfg;
         json!({"k": "reset", "run": self.run, "svc": c.svc, "nc": c.nc, "ns": c.ns, "ma": c.ma, "ml": c.ml,
                "rb": c.rb, "mb": c.mb, "mlr": c.mlr, "oq": c.oq, "op": c.op, "ff": c.ff, "msv": c.msv,
-               "mcl": c.mcl, "nreq": w.nreq, "nresp": w.nresp})
+               "mcl": c.mcl, "xb": c.xb, "nreq": w.nreq, "nresp": w.nresp})
     }
 
     fn finish_run<S: Service>(&mut self, w: World<S>) {
@@ -76,7 +85,7 @@ impl Runner {
 
     fn run_program<S: Service>(&mut self, cfg: &Cfg, steps: &[Step]) {
         self.run += 1;
-        let (config, prefix) = self.config();
+        let (config, prefix) = self.config_for(cfg);
         let mut w = match World::<S>::new(cfg, &config, &format!("verif/reqres/{prefix}")) {
             Ok(w) => w,
             Err(e) => {
@@ -96,7 +105,7 @@ impl Runner {
 
     fn run_generated<S: Service>(&mut self, cfg: &Cfg, len: u64, rng: &mut Rng, o: &r#gen::GenOpts) -> Vec<Step> {
         self.run += 1;
-        let (config, prefix) = self.config();
+        let (config, prefix) = self.config_for(cfg);
         let mut w = match World::<S>::new(cfg, &config, &format!("verif/reqres/{prefix}")) {
             Ok(w) => w,
             Err(e) => {
@@ -204,7 +213,7 @@ fn main() {
             let mut outv = Vec::new();
             for cfg in &cfgs {
                 r.run += 1;
-                let (config, prefix) = r.config();
+                let (config, prefix) = r.config_for(cfg);
                 let (nreq, nresp) = if cfg.svc == "local" {
                     let w = World::<local::Service>::new(cfg, &config, &format!("verif/reqres/{prefix}")).expect("world");
                     let v = (w.nreq, w.nresp);
